@@ -433,6 +433,12 @@ class Gen:
                    [F('a', u(4), [('r', 0, 2), ('r', 2, 2)], count=2, stride=4, lst=True)], 'array-element-names-bit-twice')
             two(W, [F('a', u(3), [('s', 1), ('s', 0), ('s', 1)], count=2, stride=2, lst=True), F('b', u(W - 4), [('r', 4, W - 1)])],
                 'array-element-names-bit-twice-nonadjacent')
+            if W >= 16:
+                # a range-list array whose stride equals the width of one element (the elements interleave; they are not a solid block)
+                two(W, [F('a', u(4), [('r', 0, 1), ('r', 8, 9)], count=2, stride=4, lst=True), F('b', u(2), [('r', 2, 3)])],
+                    'list-array-stride-equals-width-disjoint')
+                two(W, [F('a', u(4), [('r', 0, 1), ('r', 8, 9)], count=2, stride=4, lst=True), F('b', u(2), [('r', 8, 9)])],
+                    'list-array-stride-equals-width-aliased')
             two(W, [F('a', {'k': 'bool'}, [('s', 0)], count=h), F('b', u(W - h), [('r', h, W - 1)])], 'bool-array')
             two(W, [F('a', {'k': 'bool'}, [('s', 0)], count=h), F('b', u(W - h + 1), [('r', h - 1, W - 1)])], 'bool-array-overlaps-field')
             two(W, [F('a', u(h), [('r', 0, h - 1)]), F('b', u(W - h), [('r', h, W - 1)], acc='')], 'field-without-access')
@@ -507,6 +513,14 @@ class Gen:
                             {'form': 'const', 'name': 'RESET_%d' % k, 'value': v}
                         self.add(d, 'F8', 'accept', ['option-combination', form, 'debug-first' if rev else 'default-first',
                                                      'legacy' if legacy else 'eq'])
+        # the declaration comes out of a macro_rules! macro and its default arrives as an `expr` / `literal` fragment
+        for frag, form in (('expr', 'lit'), ('literal', 'lit'), ('expr', 'const'), ('ident', 'const')):
+            for legacy in (False, True):
+                d = {'kind': 'bitfield', 'name': self.name('S'), 'base': 24 if legacy else 32, 'legacy': legacy, 'macro_default': frag,
+                     'fields': [F('lo', u(4), [('r', 0, 3)]), F('flag', {'k': 'bool'}, [('s', 7)], acc='r')]}
+                d['default'] = {'form': 'lit', 'value': 0xC0FFE, 'text': '0xC_0FFE'} if form == 'lit' else \
+                    {'form': 'const', 'name': 'VIA_MACRO_%s' % d['name'], 'value': 0xBEEF1}
+                self.add(d, 'F8', 'accept', ['default-through-macro_rules', frag, form])
         # nothing writable, with a default: builder().build() is still offered (and is the default); also a field-less struct
         for W in (8, 24):
             self.add({'kind': 'bitfield', 'name': self.name('S'), 'base': W, 'default': {'form': 'lit', 'value': 0xA5},
